@@ -8,3 +8,6 @@ import "time"
 func verifScanTick() <-chan time.Time {
 	return nil
 }
+
+// verifManagerWindow is a hook for verification builds.
+func verifManagerWindow(string) {}
